@@ -14,6 +14,10 @@ import FordModel.CallsScope
 import FordModel.Lemmas.CallsScope
 import FordModel.Spec.CallsNames
 import FordModel.Lemmas.ReaderSplit
+import FordModel.Lemmas.CallsChain
+import FordModel.FixedSpec
+import FordModel.Lemmas.Fixed
+import FordModel.Lemmas.CallsFixed
 namespace Ford.C08
 open Ford Ford.Calls Ford.CallsSpec
 
@@ -512,6 +516,182 @@ theorem continued_call_lines_record_exactly :
       = [["update_all"], ["ready"], ["finish"], ["weight"], ["other"]] ∧
     recordedOfPhysical ["if (ready(n)) call update_all(field, n)", "call finish", "x = weight(1) + other (2)"]
       = [["update_all"], ["ready"], ["finish"], ["weight"], ["other"]] := by
+  decide +kernel
+
+/-! ### Round 6: chains of any length (`_find_chain_item`), and fixed-form source -/
+
+open Chain in
+/-- **A component reached through a chain of any length is never recorded** ("array elements and
+    other variables ... are never recorded as calls").  `o` is a variable of the unit whose type
+    is the visible derived type `t0`; `ls` is a path of components through derived types of any
+    length (`a % inner`, `oa(i) % cells(k)`: the subscript lists are gone at this point) that ends
+    in type `t`; `c` is a component of `t` (an array component referenced with a subscript list,
+    which is why the scanner recorded the chain).  Whatever else is called `c` - a module
+    procedure, a binding of `t`, a type - the chain `o % ls % c` designates the variable and
+    `correlate` drops it.  Over the generated merge order of `get_label_item` (the component table
+    is merged last) and the generated removed classes. -/
+theorem component_through_chain_never_recorded (w : World) (root : Str → Option Item) (o ty0 : Str)
+    (t0 t : TypeDef) (ls : List Str) (c tyc : Str)
+    (hr : root o = some (.var o ty0)) (h0 : findType w ty0 = some t0) (hp : CompPath w t0 ls t)
+    (hc : assoc t.comps c = some tyc) :
+    keepChain Generated.C08.labelOrder Generated.C08.removedKinds w root (o :: (ls ++ [c])) = none := by
+  simp only [keepChain, findChain_path w root o ty0 t0 t ls c hr h0 hp, typeItem_comp w t c tyc hc]
+  simp [itemRemoved, Scope.isRemoved, Generated.C08.removedKinds]
+
+open Chain in
+/-- **A type-bound procedure invoked through a chain of any length is recorded as that binding**
+    ("resolved as in C07"): same path as above, `c` is a binding of the reached type `t` declared
+    by type `owner` (inherited bindings are in the table of the extending type after its own
+    `correlate`), and no component, parent type or visible type carries the label.  The chain is
+    kept, as the bound procedure - not as a bare name, and not as an unrelated module procedure
+    that happens to be called `c` (bindings are merged after `all_procs`). -/
+theorem binding_through_chain_resolved (w : World) (root : Str → Option Item) (o ty0 : Str)
+    (t0 t : TypeDef) (ls : List Str) (c owner : Str)
+    (hr : root o = some (.var o ty0)) (h0 : findType w ty0 = some t0) (hp : CompPath w t0 ls t)
+    (hc : assoc t.comps c = none) (hpar : t.parents.contains c = false) (ht : findType w c = none)
+    (hb : assoc t.bound c = some owner) :
+    keepChain Generated.C08.labelOrder Generated.C08.removedKinds w root (o :: (ls ++ [c]))
+      = some (.item (.bound owner c)) := by
+  simp only [keepChain, findChain_path w root o ty0 t0 t ls c hr h0 hp,
+    typeItem_bound w t c owner hc hpar ht hb]
+  simp [itemRemoved, Generated.C08.removedKinds]
+
+open Chain in
+/-- **A binding invoked through the result of a function is resolved** (the chain FORD records for
+    `associate (p => make(2))` ... `p % get()` is `make % get`: the selector is substituted for
+    the associate name).  `f` is a function of the scope whose result variable has the visible
+    derived type `t0`; then as in `binding_through_chain_resolved`.  The real `_find_chain_item`
+    raises instead when `f` has not been correlated yet (finding
+    `C08-chain-through-uncorrelated-function-raises`; with the candidate repair it returns what
+    this theorem says). -/
+theorem binding_through_function_result_resolved (w : World) (root : Str → Option Item) (f ty0 : Str)
+    (t0 t : TypeDef) (ls : List Str) (c owner : Str)
+    (hr : root f = some (.proc f (some ty0))) (h0 : findType w ty0 = some t0) (hp : CompPath w t0 ls t)
+    (hc : assoc t.comps c = none) (hpar : t.parents.contains c = false) (ht : findType w c = none)
+    (hb : assoc t.bound c = some owner) :
+    keepChain Generated.C08.labelOrder Generated.C08.removedKinds w root (f :: (ls ++ [c]))
+      = some (.item (.bound owner c)) := by
+  simp only [keepChain, findChain_path_fn w root f ty0 t0 t ls c hr h0 hp,
+    typeItem_bound w t c owner hc hpar ht hb]
+  simp [itemRemoved, Generated.C08.removedKinds]
+
+open Chain in
+/-- non-vacuity: `mk_t1 % get` and `mk_t1 % cells % fetch` over the generated tables -/
+example :
+    let t2 : TypeDef := { name := chars! "t2", bound := [(chars! "fetch", chars! "t2")] }
+    let t1 : TypeDef := { name := chars! "t1", bound := [(chars! "get", chars! "t1")], comps := [(chars! "cells", chars! "t2")] }
+    let w : World := { types := [t1, t2], procs := [(chars! "mk_t1", some (chars! "t1"))] }
+    let h : Scope.Host := { procs := [chars! "mk_t1"], types := [chars! "t1", chars! "t2"] }
+    keptAll w h { stmts := [] } [] [(chars! "mk_t1", some (chars! "t1"))]
+        [[chars! "mk_t1"], [chars! "mk_t1", chars! "get"], [chars! "mk_t1", chars! "cells", chars! "fetch"]]
+      = [.item (.proc (chars! "mk_t1") (some (chars! "t1"))), .item (.bound (chars! "t1") (chars! "get")),
+         .item (.bound (chars! "t2") (chars! "fetch"))] := by
+  decide +kernel
+
+open Chain in
+/-- **A chain whose first label is unknown in the scope stays as its last label** (a reference to
+    a procedure FORD has not seen is kept by name, whatever the length of the chain). -/
+theorem unknown_root_chain_kept_by_name (order removed : List String) (w : World) (root : Str → Option Item)
+    (o : Str) (rest : Chain) (hr : root o = none) :
+    keepChain order removed w root (o :: rest) = some (.name (lastOf (o :: rest))) := by
+  cases rest with
+  | nil => simp [keepChain, findChain, hr]
+  | cons l r => simp [keepChain, findChain, hr]
+
+open Chain in
+/-- Non-vacuity over the generated tables: a unit with an array of objects `oa` of type `t1` and
+    an object `b` of type `t2` (which extends `t0`); `t1` has the component array `cells` of type
+    `t2`.  `oa(i) % cells(k) % fetch()` is the binding `fetch` of `t2`, `oa(i) % vals(j)` and
+    `oa(i) % cells(k) % q(1)` (inherited component) are dropped, `b % show()` is the binding
+    inherited from `t0`, `b % t0 % q(2)` (parent component) is dropped, `oa(i) % nothing(1)` stays
+    as the name, the module function `fa` stays as the procedure. -/
+example :
+    let t0 : TypeDef := { name := chars! "t0", bound := [(chars! "show", chars! "t0")],
+                          comps := [(chars! "val", chars! "integer"), (chars! "q", chars! "real")] }
+    let t2 : TypeDef := { name := chars! "t2", bound := [(chars! "fetch", chars! "t2"), (chars! "show", chars! "t0")],
+                          comps := [(chars! "w", chars! "real"), (chars! "val", chars! "integer"), (chars! "q", chars! "real")],
+                          parents := [chars! "t0"] }
+    let t1 : TypeDef := { name := chars! "t1", bound := [(chars! "get", chars! "t1")],
+                          comps := [(chars! "vals", chars! "real"), (chars! "cells", chars! "t2")] }
+    let w : World := { types := [t0, t1, t2], procs := [(chars! "fa", some (chars! "real"))] }
+    let u : Scope.Unit := { stmts := [.tdecl [] [chars! "oa"], .tdecl [] [chars! "b"]] }
+    let h : Scope.Host := { procs := [chars! "fa"], types := [chars! "t0", chars! "t1", chars! "t2"] }
+    keptAll w h u [(chars! "oa", chars! "t1"), (chars! "b", chars! "t2")] []
+        [[chars! "oa", chars! "cells", chars! "fetch"], [chars! "oa", chars! "vals"], [chars! "oa", chars! "cells", chars! "q"],
+         [chars! "b", chars! "show"], [chars! "b", chars! "t0", chars! "q"], [chars! "oa", chars! "nothing"], [chars! "fa"]]
+      = [.item (.bound (chars! "t2") (chars! "fetch")), .item (.bound (chars! "t0") (chars! "show")),
+         .name (chars! "nothing"), .item (.proc (chars! "fa") none)] := by
+  decide +kernel
+
+open Fixed in
+/-- **A fixed-form deck records exactly what its free-form equivalent records** ("on continued
+    lines", for source written in columns).  For every well-formed deck - any number of initial
+    cards with a label field, continuation cards with any non-blank, non-zero character in column
+    6, comment cards of every style and blank cards in between, any text in columns 73+ - the
+    statements the reader gets from the converter are the statements of the equivalent free-form
+    file `renderFree` (label in front of the statement, ` &` on every continued line, and - limit
+    on - the text of columns 73+ behind a `!` that stands in column 73 or later), hence the same
+    calls are recorded.  (Converter model `Fixed.convertToFree`, shared with C14 and tied to
+    ford/fixed2free2.py by the unit stream `c08.fixed`; corollary of C14's simulation lemma.) -/
+theorem fixed_deck_records_as_free_equivalent (v : Variant) (lim : Bool) (p : List Item) (h : WF v p) :
+    recordedFixed v lim (renderFixed p) = recordedPhysical ((renderFree v lim p).map dropNL) := by
+  have hs : convertToFree v lim (renderFixed p) = renderFree v lim p := by
+    have := convGo_sim v lim p [] h.1 (Or.inr h.2)
+    simpa [convertToFree, h.2] using this
+  simp [recordedFixed, fixedStatements, recordedPhysical, hs]
+
+open Fixed in
+/-- **Text in columns 73+ of a continued card is commentary; the statement goes on.**  Limit on
+    (the default).  A card whose statement field (label + columns 7-72, trailing blanks removed)
+    is `ind0 x r0` and that has ANY text in columns 73+ (`body0.length > 66`: card sequence
+    numbers, a remark, quotes, `&`, `!` ...), continued by a card with statement field `ind1 y b0`
+    and again any text in columns 73+, records exactly what the free-form lines `x r0 &` / `y b0`
+    record: the continuation mark the converter inserts stays in front of the overflow comment,
+    the reader joins the two statement fields with one blank and nothing of the sequence fields
+    reaches the statement.  (`ind0`, `ind1`: indentation; the fields are comment-free and
+    quote-closed - `Atoms`, the reader's own notion - and do not start with `&` / `#`.) -/
+theorem sequence_field_cards_record_as_free_form (v : Variant) (hv : v.spacedExcess = true)
+    (lab body0 body1 ind0 ind1 : Str) (x y : Char) (r0 b0 : Str) (rest : List Str)
+    (hl0 : body0.length > 66) (hl1 : body1.length > 66)
+    (h0 : rstrip (lab ++ body0.take 66) = ind0 ++ x :: r0) (hi0 : isBlank ind0 = true)
+    (h1 : rstrip (body1.take 66) = ind1 ++ y :: b0) (hi1 : isBlank ind1 = true)
+    (hx : isSpace x = false) (hxa : x ≠ '&') (hxh : x ≠ '#') (hr0 : rstrip (x :: r0) = x :: r0)
+    (hy : isSpace y = false) (hya : y ≠ '&') (hyh : y ≠ '#') (hb0 : rstrip (y :: b0) = y :: b0)
+    (hlast : (y :: b0).getLast? ≠ some '&') (ha0 : Atoms (x :: r0)) (ha1 : Atoms (y :: b0))
+    (hJ : itemsOf (x :: r0 ++ ' ' :: y :: b0) ≠ []) :
+    recordedPhysical (dropNL (freeCode v true lab body0 true) :: dropNL (freeCode v true [] body1 false) :: rest)
+      = recordedPhysical ((x :: (r0 ++ [' ', '&'])) :: (y :: b0) :: rest) := by
+  have hamp : Atoms (x :: (r0 ++ [' ', '&'])) := by
+    have e : x :: (r0 ++ [' ', '&']) = (x :: r0) ++ [' ', '&'] := by simp
+    rw [e]
+    exact atoms_append _ _ ha0 (.plain ' ' _ (by decide) (by decide) (.plain '&' _ (by decide) (by decide) .nil))
+  have hramp : rstrip (x :: (r0 ++ [' ', '&'])) = x :: (r0 ++ [' ', '&']) := by
+    have e : x :: (r0 ++ [' ', '&']) = (x :: r0) ++ [' ', '&'] := by simp
+    rw [e, rstrip_amp]
+  -- the two cards
+  obtain ⟨n0, c0⟩ := long_card_code v hv lab body0 true ind0 x (r0 ++ [' ', '&']) hl0
+    (by simp [h0]) hi0 hx hxh hramp hamp
+  obtain ⟨n1, c1⟩ := long_card_code v hv [] body1 false ind1 y b0 hl1
+    (by simpa using h1) hi1 hy hyh hb0 ha1
+  -- the two free-form lines
+  obtain ⟨m0, d0⟩ := plain_line_code x (r0 ++ [' ', '&']) hx hxh hramp hamp
+  obtain ⟨m1, d1⟩ := plain_line_code y b0 hy hyh hb0 ha1
+  have hq : (qs [] false : RS) = {} := rfl
+  simp only [recordedPhysical, physStatements, readAll, ← hq,
+    two_line_join _ _ x y r0 b0 rest n0 c0 n1 c1 hx hxa hr0 ha0 hy hya hlast hJ,
+    two_line_join _ _ x y r0 b0 rest m0 d0 m1 d1 hx hxa hr0 ha0 hy hya hlast hJ]
+
+/-- Non-vacuity over the generated tables: a deck with card sequence numbers in columns 73-80.  The
+    argument list of `F` is continued on the next card, the FORMAT statement too: the calls are
+    `f`, `g`, `report`, and nothing of the FORMAT statement. -/
+theorem fixed_cards_with_sequence_field_record_exactly :
+    recordedOfFixed ["      Y = F(X,                                                          DK000200",
+                     "     &      G(Z))                                                       DK000210",
+                     "C     call hidden(1)",
+                     "      CALL REPORT(Y)                                                    DK000220",
+                     " 9000 FORMAT (1X, 'RESULT', F10.3,                                      DK000230",
+                     "     1        2(1X, I3))                                                DK000240"]
+      = [["f"], ["g"], ["report"]] := by
   decide +kernel
 
 end Ford.C08
